@@ -94,8 +94,11 @@ def onoff(draw):
     return draw(st.sampled_from(["true", "false"]))
 
 
-def b_knobs(draw):
-    opts = draw(st.lists(st.sampled_from(sorted(KNOB_OPTS)), min_size=1, max_size=4, unique=True))
+def b_knobs(draw, history=False):
+    names = sorted(KNOB_OPTS)
+    if history and EXCLUDE_LOGFILE_IN_HISTORY:
+        names = [n for n in names if n != "logfile"]
+    opts = draw(st.lists(st.sampled_from(names), min_size=1, max_size=4, unique=True))
     return ["KNOBS"] + [" -%s %s" % (o, draw(st.sampled_from(KNOB_OPTS[o]))) for o in opts]
 
 
@@ -254,6 +257,33 @@ def b_inverse(draw):
             "PHASES", "Halite", " NaCl = Na+ + Cl-", " log_k 1.582"]
 
 
+def b_dump(draw):
+    L = ["DUMP"]
+    k = draw(st.integers(0, 3))
+    L.append([" -all", " -cells 1-3", " -solution 1 2", " -equilibrium_phases 1\n -exchange 1"][k])
+    if draw(st.integers(0, 2)) == 0:
+        L.append(" -append %s" % onoff(draw))
+    if draw(st.integers(0, 2)) == 0:
+        L.append(" -file c07_hist.dmp")
+    return L
+
+
+def b_delete(draw):
+    return ["DELETE", draw(st.sampled_from([" -solution 1", " -cells 1-2", " -all", " -solution 3\n -equilibrium_phases 1"]))]
+
+
+def b_runcells(draw):
+    L = ["RUN_CELLS", " -cells %s" % draw(st.sampled_from(["1", "1-3", "2 4"]))]
+    k = draw(st.integers(0, 2))
+    if k == 0:
+        L += [" -time_step 100", " -start_time 50"]
+    return L
+
+
+def b_copy(draw):
+    return ["COPY solution 1 %s" % draw(st.sampled_from(["15", "16-17"])), "COPY cell 2 14"]
+
+
 def b_mix(draw):
     return ["MIX %d" % draw(st.sampled_from([1, 2])), " 1 0.5", " 2 0.5"]
 
@@ -266,11 +296,20 @@ BLOCKS = {
     "surface": (b_surface, "surface"), "gas": (b_gas, "gas"), "ss": (b_ss, "gas"), "phases": (b_phases, "entities"),
     "save": (b_save, "entities"), "temp": (b_temp, "temp"), "pitzer": (b_pitzer, "model"), "llnl": (b_llnl, "model"),
     "species": (b_species, "species"), "isotope": (b_isotope, "isotopes"), "inverse": (b_inverse, "inverse"), "mix": (b_mix, "entities"),
+    "dump": (b_dump, "dump"), "delete": (b_delete, "entities"), "runcells": (b_runcells, "entities"), "copy": (b_copy, "entities"),
 }
 # blocks that do not go together in one simulation (keeps the discard rate low; found by measurement)
 EXCLUSIVE = [{"transport", "advection"}, {"transport", "gas"}, {"transport", "ss"}, {"transport", "surface"}, {"transport", "kinetics"},
              {"advection", "kinetics"}, {"transport", "incr"}, {"transport", "temp"}, {"transport", "mix"}, {"advection", "mix"},
-             {"transport", "inverse"}, {"gas", "temp"}]
+             {"transport", "inverse"}, {"gas", "temp"}, {"runcells", "transport"}, {"runcells", "advection"}, {"runcells", "kinetics"},
+             {"delete", "runcells"}, {"delete", "save"}, {"delete", "copy"}]
+
+# While the pinned tree keeps a DUMP request across LoadDatabase (dump_info is not re-initialised; reported), DUMP blocks are not
+# generated into histories.  Set to False once the defect is repaired in /repo.
+EXCLUDE_DUMP_IN_HISTORY = True
+# KNOBS -logfile true sets PHRQ_io::log_on of the IPhreeqc object, which UnLoadDatabase does not reset (pr.logfile is reset):
+# the log channel stays enabled after the load (reported).  Not generated into histories while True.
+EXCLUDE_LOGFILE_IN_HISTORY = True
 
 
 def blocks_for_db(db):
@@ -281,9 +320,11 @@ def blocks_for_db(db):
 
 
 @st.composite
-def gen_input(draw, db, max_sims=2):
+def gen_input(draw, db, max_sims=2, history=True):
     """-> {"text":..., "tags":[...]}: 1..max_sims simulations, each with SOLUTION 0-12 and 1-4 option/entity blocks"""
     avail = blocks_for_db(db)
+    if history and EXCLUDE_DUMP_IN_HISTORY:
+        avail = [a for a in avail if a != "dump"]
     sims, tags = [], []
     for k in range(draw(st.integers(1, max_sims))):
         names = draw(st.lists(st.sampled_from(avail), min_size=1, max_size=4, unique=True))
@@ -293,7 +334,7 @@ def gen_input(draw, db, max_sims=2):
                 keep.append(n)
         L = ["SOLUTION 0-12", draw(st.sampled_from(SOLS)).rstrip("\n")]
         for n in keep:
-            L += BLOCKS[n][0](draw)
+            L += b_knobs(draw, history) if n == "knobs" else BLOCKS[n][0](draw)
             tags.append(BLOCKS[n][1])
         L.append("END")
         sims.append("\n".join(L))
@@ -361,9 +402,11 @@ def fail_step(draw, db):
         tags += g["tags"]
     # option blocks inside the failing simulation itself: they are read before the error stops the run
     inner = []
-    for n in draw(st.lists(st.sampled_from(["knobs", "print", "title", "incr", "calc"]), max_size=2, unique=True)):
+    for n in draw(st.lists(st.sampled_from(["knobs", "print", "title", "incr", "calc", "dump", "delete", "runcells", "copy", "selout"]), max_size=2, unique=True)):
+        if n == "dump" and EXCLUDE_DUMP_IN_HISTORY:
+            continue
         if n in blocks_for_db(db) and not (n == "incr" and "REACTION" in sim) and not (n == "knobs" and "KNOBS" in sim):
-            inner += BLOCKS[n][0](draw)
+            inner += b_knobs(draw, True) if n == "knobs" else BLOCKS[n][0](draw)
             tags.append(BLOCKS[n][1])
     body = sim
     if inner:
@@ -393,7 +436,7 @@ def post_steps(draw, db, hist_tags):
     for i in range(n):
         k = draw(st.integers(0, 9))
         if k == 0:
-            g = draw(gen_input(db, 1))
+            g = draw(gen_input(db, 1, history=False))
             post.append({"op": "run", "text": g["text"], "how": draw(st.sampled_from(["string", "file", "acc"])), "tags": g["tags"]})
             continue
         if k == 1:
@@ -411,7 +454,9 @@ def post_steps(draw, db, hist_tags):
             post.append(setter_step(draw))
     if not any(s["op"] in ("run", "runacc") for s in post):
         post.append({"op": "run", "src": "probe:plain", "how": "string"})
-    return post
+    # probes that are meant to fail on a clean instance go last (a failed follow-up ends the battery)
+    last = [s for s in post if s.get("src", "").startswith("probe:leftover_")]
+    return [s for s in post if not s.get("src", "").startswith("probe:leftover_")] + last[:1]
 
 
 @st.composite
@@ -633,6 +678,15 @@ def history_model(case):
 
 
 DUMP_RE = re.compile(r"(?im)^\s*DUMP\b")
+LOGFILE_RE = re.compile(r"(?im)^\s*-log_?file\b")
+
+
+def excluded_history_text(t):
+    if EXCLUDE_DUMP_IN_HISTORY and DUMP_RE.search(t):
+        return "dump_block_in_history"
+    if EXCLUDE_LOGFILE_IN_HISTORY and LOGFILE_RE.search(t):
+        return "knobs_logfile_in_history"
+    return None
 
 
 def check_case(case, ctx):
@@ -649,15 +703,17 @@ def check_case(case, ctx):
         k = 0
         for s in steps:
             k += 1
-            if s["op"] == "run" and DUMP_RE.search(step_text(s)):
-                raise Discard("dump_block_in_history")  # recorded finding; never generated
+            why = excluded_history_text(step_text(s)) if s["op"] == "run" else None
+            if why:
+                raise Discard(why)  # reported defect of the pinned tree; never generated, only reachable through a replay file
             rc = do_step(H, s, wdh, k)
             if rc is not None and rc != 0:
                 raise Discard("history_call_failed:%s" % (s.get("src") or s["op"]))
         if case["fail"]:
             s = case["fail"]
-            if s["op"] == "run" and DUMP_RE.search(step_text(s)):
-                raise Discard("dump_block_in_history")
+            why = excluded_history_text(step_text(s)) if s["op"] == "run" else None
+            if why:
+                raise Discard(why)
             rc = do_step(H, s, wdh, k + 1)
             if rc == 0:
                 raise Discard("failing_call_succeeded:%s" % s.get("fail_name", s.get("fail")))
@@ -669,9 +725,15 @@ def check_case(case, ctx):
             for f in fs:
                 os.unlink(os.path.join(root, f))
         hs = [snapshot(H, wdh, rc)]
+        # A follow-up that fails ends the battery: what an instance does after a failed run is C08's subject (on the pinned tree a
+        # failed run can make the next one crash, also on a brand-new instance).
+        post = []
         for j, s in enumerate(case["post"]):
             rc = do_step(H, s, wdh, 100 + j)
             hs.append(snapshot(H, wdh, rc))
+            post.append(s)
+            if rc is not None and rc != 0:
+                break
         hid = H.id
         # ---------------- what survives, checked against the calls of the history
         h0 = hs[0]
@@ -717,7 +779,7 @@ def check_case(case, ctx):
                 os.unlink(os.path.join(root, f))
         rs = [snapshot(R, wdr, rc)]
         compare(hs[0], rs[0], "right after the load")
-        for j, s in enumerate(case["post"]):
+        for j, s in enumerate(post):
             rc = do_step(R, s, wdr, 100 + j)
             rs.append(snapshot(R, wdr, rc))
             compare(hs[j + 1], rs[j + 1], "after follow-up call %d (%s)" % (j, s.get("src") or s.get("fn") or s["op"]))
@@ -733,7 +795,7 @@ def check_case(case, ctx):
     option_run = any(t != "fail" for t in tags)
     other_family = any(f != fam_final for f in fams)
     computed = 0
-    for j, s in enumerate(case["post"]):
+    for j, s in enumerate(post):
         o = hs[j + 1]
         if s["op"] in ("run", "runacc") and o["return_code"] == 0:
             rows = sum(o["selected_output_table.%d" % n][0] for n in OBS_NUMS)
@@ -748,7 +810,9 @@ def check_case(case, ctx):
         classes.append("other_family_before")
     for t in tags:
         classes.append("hist_tag:" + t)
-    for s in case["post"]:
+    if len(post) < len(case["post"]):
+        classes.append("battery_cut_after_failed_followup")
+    for s in post:
         if s["op"] == "run" and s.get("src", "").startswith("probe:"):
             classes.append(s["src"])
         elif s["op"] == "run":
